@@ -54,6 +54,7 @@ class Verdicts:
     def __init__(self, run):
         self.run = run
         self.nviol = 0
+        self.per_tag = {}
         self.kf = {f["id"]: f for f in run.kf}
 
     def known(self, fid, detail, kind=""):
@@ -65,9 +66,11 @@ class Verdicts:
         return False
 
     def violation(self, what, replay, tag, no_input=False):
+        # at most three reports per kind of failure, so that one kind cannot crowd out the others
         self.nviol += 1
-        if self.nviol <= 4:
-            self.run.violation(what, replay, tag="%s%d" % (tag, self.nviol), no_input=no_input)
+        self.per_tag[tag] = self.per_tag.get(tag, 0) + 1
+        if self.per_tag[tag] <= 3:
+            self.run.violation(what, replay, tag="%s%d" % (tag, self.per_tag[tag]), no_input=no_input)
 
 
 def step_text(steps, pos):
@@ -102,6 +105,8 @@ def settle(model, V, items):
         for p2 in G.double_conclusions(steps):
             cls, text = G.explain_redelivery(steps, p2)
             fid = {"slot": "C07-F1", "newmid": "C07-F2"}.get(cls)
+            if cls in ("newmid", "slot") and it.get("srv_errors"):
+                fid = None     # not explained by re-processing of a retransmitted request: the server misbehaved
             if cls == "both" and late_response(it, steps, p2):
                 fid = "C07-F3"
             if fid and V.known(fid, "%s; case: %s" % (text, it["case"][:160]), it.get("kind", "")):
@@ -253,20 +258,37 @@ def main(run):
         exc.append((G.exc_line(ins), "template", True))
         exc.append((G.exc_line(ins, mid0=65533), "template", True))      # mid wraps inside the case
         exc.append((G.exc_line(ins, mid0=65535), "template", True))      # first request has mid 0
+        exc.append((G.exc_line(ins, tok0=-1), "template", True))         # first token has length 0
+        exc.append((G.exc_line(ins, tok0=72057594037927934), "template", True))   # 7- then 8-byte tokens
         exc.append((G.exc_line([x.replace(":7:", ":0:") for x in ins], mid0=6), "template", True))  # peer mid 0
     for i in range(0 if replay_only else 12000 if quick else 120000):
         honest = r.random() < 0.6
         maxr = r.choice([4, 4, 4, 1, 2, 7])
         exc.append((G.exc_line(["H%d" % r.choice([1, 1, 2, 3, 4, 5, 6, 7])] + G.random_exc(r, honest, maxr), maxr=maxr,
                                mid0=r.choice([100, 65530, 65534, 65535, 0, 7, 999]),
-                               tok0=r.choice([0, 0, 254, 65534])),
+                               tok0=r.choice([0, 0, -1, -1, 254, 65534, 72057594037927934])),
                     "random-honest" if honest else "random-arbitrary", honest))
     nfate = 7 if quick else 8
     for kind in (() if replay_only else ("real", "rfc")):
-        for sty in G.STYLES:
-            for fates in G.exhaustive_fates(nfate, 1500):
-                exe.append((G.exe_line(kind, [(sty, 1, 0)], fates, seed=3, nstart=16 if len(exe) % 2 else 0),
+        for sty in G.EXE_STYLES:
+            if sty >= 5 and kind == "rfc":
+                continue
+            for fates in G.exhaustive_fates(nfate if sty < 5 else nfate - 1, 1500):
+                if sty >= 5:
+                    # untimed async: the application triggers 4 s after the registration, i.e. after
+                    # the client's first retransmission
+                    exe.append((G.exe_line(kind, [(sty, 1, 0)], fates, seed=3, adelay=4000,
+                                           nstart=16 if len(exe) % 2 else 0,
+                                           tok0=G.TOK0S[(len(exe) // 2) % len(G.TOK0S)]), "exhaustive-" + kind, True))
+                    continue
+                exe.append((G.exe_line(kind, [(sty, 1, 0)], fates, seed=3, nstart=16 if len(exe) % 2 else 0,
+                                       tok0=G.TOK0S[(len(exe) // 2) % len(G.TOK0S)]),
                             "exhaustive-" + kind, True))
+    # every fate table once more with a zero-length token (quick: one datagram shorter)
+    for kind in (() if replay_only else ("real", "rfc")):
+        for sty in G.STYLES:
+            for fates in G.exhaustive_fates(nfate - 1, 1500):
+                exe.append((G.exe_line(kind, [(sty, 1, 0)], fates, seed=3, tok0=-1), "exhaustive0-" + kind, True))
     if not quick and not replay_only:
         for kind in ("real", "rfc"):
             for sty in (1, 3):
@@ -276,9 +298,10 @@ def main(run):
     for i in range(0 if replay_only else 10000 if quick else 150000):
         kind = r.choice(["real", "real", "rfc"])
         nreq = r.choice([1, 2, 2, 3, 4])
-        reqs = [(r.choice(G.STYLES), r.choice([1, 1, 1, 0]), r.choice([0, 0, 5, 400, 1800])) for _ in range(nreq)]
+        reqs = [(r.choice(G.EXE_STYLES), r.choice([1, 1, 1, 0]), r.choice([0, 0, 5, 400, 1800])) for _ in range(nreq)]
         fates = G.random_fates(r, r.choice([4, 8, 12, 20]), heavy=(r.random() < 0.25))
         exe.append((G.exe_line(kind, reqs, fates, seed=r.randrange(1, 1 << 30), method=r.choice([1, 1, 2, 3, 4]),
+                               tok0=r.choice(G.TOK0S + [-1]),
                                cmid0=r.choice([100, 65533, 65535, 41527, 41528, 41529]), smid0=r.choice([-1, -1, 65535, 99, 100]),
                                adelay=r.choice([1, 300, 1200, 2500, 4000]),
                                dflt=r.choice([0, 3, 40, 900]), nstart=r.choice([0, 16, 16])),
@@ -344,6 +367,7 @@ def main(run):
                     "case: %s\nrc: %d\nstderr: %s\n" % (lines[idx], rc, err), "crash")
     items = []
     replay = []
+    nshape = 0
     for i, (ln, kind, honest) in enumerate(exe):
         p = G.parse_exe(oc[i])
         run.hist("case_kind", "exe-" + kind)
@@ -360,8 +384,17 @@ def main(run):
             run.sample({"case": ln[:200], "impl": oc[i][:400]})
         f = ln.split()
         cmid0 = int(f[f.index("M") + 1])
-        replay.append(G.exc_line([s[0] for s in p["steps"]], mid0=cmid0))
-        items.append({"case": ln, "steps": p["steps"], "parsed": p, "kind": "exe-" + kind})
+        ctok0 = int(f[f.index("T") + 1]) if "T" in f[:12] else 0
+        replay.append(G.exc_line([s[0] for s in p["steps"]], mid0=cmid0, tok0=ctok0))
+        errs = G.server_shape_errors(p["srv"][1]) if (p.get("srv") and " K real " in ln) else []
+        nshape = nshape + 1 if errs else nshape
+        if errs and nshape <= 2:
+            V.violation("property fails on the implementation (server side of the separate response): the "
+                        "server answered a request datagram with something its response style does not "
+                        "allow (e.g. a response to a retransmission while the async entry is pending): %s"
+                        % errs[0], "case: %s\nserver steps: %s\noffending: %s\nclient trace: %s\n"
+                        % (ln, p["srv"][1], errs, G.fmt_steps(p["steps"])), "server")
+        items.append({"case": ln, "steps": p["steps"], "parsed": p, "kind": "exe-" + kind, "srv_errors": errs})
     om, _ = vlib.run_lines_robust(model, replay)
     # the real server's steps replayed on the abstract server of System.v (no request
     # de-duplication = what a libcoap server with these handlers does); only for runs in which the
